@@ -127,6 +127,13 @@ CHECKS = {
         "Trusted: fake dial/sleep functions substituted in mysensors.gateway_serial/gateway_tcp; version strings mixing digits with other text are not pinned and only required not to raise.",
         "DESIGN.md §2 C18",
     ),
+    "C19": (
+        "exploration",
+        "Hypothesis-generated byte streams x segmentations x pump schedules x flavours; differential oracle against a harness-framed reference run; per-line tagging of emitted commands to classify mismatches; known finding F16 recognised by exact signature",
+        "Every generated stream is run through the real protocol classes under a generated chunking (incl. byte-by-byte, cuts inside multi-byte characters and between CR and LF, 120-byte slices) and - for the threaded gateway - a generated schedule of the poll-loop body; state and ordered command log must equal the reference in which the harness frames the lines itself.",
+        "Trusted: reference framing (split on LF, UTF-8 with replacement); the clock is stubbed. KNOWN finding F16 (cross-line order of deferred commands in the threaded flavour) is counted, printed as KNOWN-FINDING and does not fail the check; any other difference does.",
+        "DESIGN.md §2 C19",
+    ),
 }
 
 NOT_YET = {}
